@@ -230,6 +230,15 @@ def run(chk, replay=None):
     except Refuse as ex:
         chk.violation("translator guards/console_tables refuses the source (broken tie): %s" % ex,
                       {"broken": "translator", "translator": "translators/guards.py", "detail": str(ex)}, False)
+        # search for a failing input all the same: the sweep below runs against the LAST ACCEPTED guard table
+        import re as _re
+        try:
+            gsrc = open(os.path.join(lib.COQ, "Gen", "EndpointGuards.v")).read()
+            rows = [(m.group(1), m.group(2), m.group(3), m.group(4))
+                    for m in _re.finditer(r'mkEp "([^"]+)" "([A-Z]+)" "([^"]+)" (\w+)', gsrc)] or None
+            chk.notes["guard_table"] = "last accepted table (the translator refuses the current source)"
+        except OSError:
+            rows = None
     proofs_ok = chk.proofs(TARGETS)
     if not proofs_ok:
         chk.violation("proof obligations of C18 no longer check: %s%s" % (failed_lemma(chk.proof_failure), chk.proof_failure[:300]),
